@@ -127,6 +127,34 @@ func c06FixedPrograms() []c06Fixed {
 				fmt.Sprintf(`func main1() string { f, p := sm("a", %d); churn(%d); g, q := sm("b", 2); r := f() + g() + *p + *q; *p += "z"; for _, h := range gs { r += h() }; return r + f() }`, p[0], p[1]),
 			}
 		}, [3][]int{{1, 4, 34}, {0, 34}, {0}}},
+		{"arity", func(p [3]int) []string {
+			// one function per call specialisation: 0/1/2/3 parameters x 0/1/2 results, basic and non-basic kinds
+			return []string{
+				`type MyInt int`,
+				`var acc int`,
+				`func f00() { x := acc + 1; acc = x }`,
+				`func f01() int { x := acc * 2; return x + 1 }`,
+				`func f10(a int) { x := a + acc; acc = x }`,
+				`func f10s(xs []int) { t := len(xs); acc += t }`,
+				`func f10m(m MyInt) { t := int(m) * 2; acc += t }`,
+				`func f10f(f func() int) { t := f(); acc += t }`,
+				`func f11(a int) int { x := a + 1; return x * 2 }`,
+				`func f11s(a string) string { x := a + "x"; return x + a }`,
+				`func f11f(a float64) float64 { x := a * 2; return x + 1 }`,
+				`func f11b(a bool) bool { x := !a; return x }`,
+				`func f11u(a uint8) uint16 { x := uint16(a) * 3; return x }`,
+				`func f11m(a MyInt) MyInt { x := a + 1; return x }`,
+				`func f20(a int, b string) { x := a + len(b); acc += x }`,
+				`func f20x(xs []int, b int) { x := len(xs) + b; acc += x }`,
+				`func f20f(a float64, b uint8) { x := int(a) + int(b); acc += x }`,
+				`func f21(a, b int) int { x := a * b; return x + 1 }`,
+				`func f12(a int) (int, string) { x := a + 1; return x, "s" }`,
+				`func f30(a, b, c int) { x := a + b + c; acc += x }`,
+				`func f31(a int, b string, c float64) int { x := a + len(b) + int(c); return x }`,
+				`func mkc(k int) (func(), func(int), func(int) int, func(int, int)) { s := k; return func() { s++ }, func(a int) { s += a }, func(a int) int { s += a; return s }, func(a, b int) { s += a * b } }`,
+				fmt.Sprintf(`func main1() int { c0, c1, c11, c2 := mkc(3); h := 0; for i := 0; i < %d; i++ { f00(); f10(i); f10s([]int{i}); f10m(MyInt(i)); f10f(f01); f20(i, "ab"); f20x(nil, i); f20f(1.5, 2); f30(i, 1, 2); c0(); c1(i); c2(i, 2); a, b := f12(i); h = h*3 + f01() + f11(i) + len(f11s("q")) + int(f11f(2)) + int(f11u(7)) + int(f11m(4)) + f21(i, 2) + a + len(b) + f31(i, "z", 2.5) + c11(1); if f11b(i%%2 == 0) { h++ }; churn(%d) }; return h*31 + acc }`, p[0], p[1]),
+			}
+		}, [3][]int{{1, 12}, {0, 3}, {0}}},
 		{"ptrmethod", func(p [3]int) []string {
 			return []string{
 				`type N int`,
